@@ -61,7 +61,15 @@ Fixpoint lstrip (p : ascii -> bool) (s : string) : string :=
   | EmptyString => EmptyString
   | String c r => if p c then lstrip p r else s
   end.
-Definition rstrip (p : ascii -> bool) (s : string) : string := srev (lstrip p (srev s)).
+Fixpoint rstrip (p : ascii -> bool) (s : string) : string :=
+  match s with
+  | EmptyString => EmptyString
+  | String c r =>
+      match rstrip p r with
+      | EmptyString => if p c then EmptyString else String c EmptyString
+      | r' => String c r'
+      end
+  end.
 Definition strip (p : ascii -> bool) (s : string) : string := rstrip p (lstrip p s).
 
 (** Python's notion of white space restricted to ASCII: 9-13, 28-31, 32. *)
